@@ -11,16 +11,16 @@ CHECKS = {
    "Complete for the finite domains the statement quantifies over (all 256 Phred values, all 256 Solexa values, all 256 bytes, every encoding) plus a fixed grid of probabilities at 5 offsets around every score; this is a decision for the tables, not a bound.",
    "Trusts math.Pow/math.Log10 as the analytic reference (1e-12 relative tolerance); sentinel scores 254/255/127/-128 excluded; Solexa printable range taken from score -5."),
  "C19": (E1, "model_checking", "DESIGN.md §2, §3 C19",
-   "stateless model checking of the real package under a controlled scheduler: every interleaving (happens-before state cache, no preemption bound) of closed Processor/Map/Promise drivers",
+   "stateless model checking of the real package under a controlled scheduler: every interleaving (happens-before state cache, symmetry reduction over the Processor's interchangeable workers cross-checked without it, no preemption bound) of closed Processor/Map/Promise drivers",
    "Every schedule of each listed closed driver (2-5 goroutines) is executed on the real, overlay-instrumented package concurrent at the granularity of channel, mutex, cond, once, waitgroup and go operations; the oracle (results multiset, single close, all workers exit, one winning Fulfill/Fail, every Wait returns the winner's value, no panic/deadlock/race) is evaluated on every execution. Drivers that do not close within the budget report the completed preemption bound and exhaustive:false.",
    "Exhaustive for the listed drivers only, not for arbitrary client programs; sequentially consistent interleavings (justified by the vector-clock race oracle evaluated on each schedule); scheduler/instrumenter (vrt, vinstr) are trusted and self-checked on toy programs with known answers before each run."),
  "C12": (E1, "model_checking", "DESIGN.md §2, §3 C12",
    "stateless model checking of the real sorter under a controlled scheduler: every interleaving of caller and background run writers (happens-before state cache, no preemption bound) at channel/mutex/waitgroup/file-operation granularity",
-   "Every schedule of each listed closed workload (0..3 background writers, short/full/empty last chunk; thorough: two-cycle histories) is executed on the real overlay-instrumented package morass against a real directory; on every execution: no panic, deadlock, leaked writer or race, no unexpected error, and pulled values = sorted pushed multiset.",
+   "Every schedule of each listed closed workload (0..3 background writers, short/full/empty last chunk; two-cycle histories incl. an in-memory or empty use before a spilling one, with and without AutoClear; a run after another sorter was cleaned up) is executed on the real overlay-instrumented package morass against a real directory; on every execution: no panic, deadlock, leaked writer or race, no unexpected error, and pulled values = sorted pushed multiset.",
    "Exhaustive for the listed workloads, not for arbitrary ones; sequentially consistent interleavings (race oracle on each schedule); file system assumed sequentially consistent per file; vrt/vinstr trusted and self-checked before each run."),
  "C13": (E1, "fault_enumeration", "DESIGN.md §2, §3 C13",
    "exhaustive single (thorough: double) I/O-fault injection at every create/write/sync/seek/read of the workload, crossed with every interleaving (controlled scheduler); plus exhaustive cycle histories x AutoClear x AutoClean for directory residue",
-   "Every I/O operation the property names is answered once with a sentinel error in every schedule of each workload (both modes); oracle: a fault that precedes the return of the last call surfaces as a non-nil non-EOF error from some Push/Finalise/Pull, and success throughout implies exactly the pushed values. Residue: all histories of <=2 cycles with counts on both sides of the chunk size, checked on the real directory.",
+   "Every I/O operation the property names is answered once with a sentinel error in every schedule of each workload (both modes); oracle: a fault that precedes the return of the last call surfaces as a non-nil non-EOF error from some Push/Finalise/Pull, and success throughout implies exactly the pushed values; a failed and cleared cycle followed by an ordinary cycle drained under AutoClear leaves no run file and delivers that cycle's values. Residue: all histories of <=2 cycles with counts on both sides of the chunk size, checked on the real directory.",
    "Faults are whole-operation errors (no short writes/crashes); Close/Remove are not faulted; exhaustive for the listed workloads only."),
  "C11": (E2, "model_checking", "DESIGN.md §2.5, §3 C11",
    "explicit-state breadth-first search over cycle histories applied to the real sorter (replay-from-fresh), merged at cycle boundaries on a reflective canonical key, run to closure; reference model = sorted multiset compared after every operation",
